@@ -584,6 +584,14 @@ mut("C16", "deferred-failure-count-also-runs-on-h1-success", PS,
     "		server.metricsRequestsTotalInc(\"0\", \"\")\n		return\n	}\n\n	// client hello stored",
     "		counted = false\n		return\n	}\n\n	// client hello stored")
 
+# ---- C08 (undo the three repairs)
+mut("C08", "undo-D12", "pkg/reverseproxy/handler.go",
+    "	r.Out.URL.RawQuery = r.In.URL.RawQuery\n", "")
+mut("C08", "undo-D14", "fingerproxy.go",
+    "	transport.DisableCompression = true\n", "")
+mut("C08", "undo-D21", "pkg/reverseproxy/handler.go",
+    "	_ = http.NewResponseController(w).EnableFullDuplex()\n", "")
+
 def run(argv):
     props = [a for a in argv if a.startswith("C")]
     sub = None
